@@ -153,3 +153,19 @@ def compare_rotation(base, obs, i, n, label):
                 pb.append("%s: feature %s part denotes %r strand %r, expected %r strand %r" % (
                     label, fb["id"], po, so, want, sb))
     return pb
+
+
+def preuse(rec, ns):
+    """what may have happened to a record object before the operation under test: it was searched, asked for membership,
+    sliced, rotated (answers discarded).  Anything an operation memoises on the object is then present."""
+    try:
+        s = str(rec.seq)
+        (s[:1] in rec), ((s[-1:] + s[:1]) in rec)
+        ns["moclo.regex"].DNARegex("N").search(rec)
+        ns["moclo.regex"].DNARegex("(N)").search(rec, linear=False)
+        rec[0:1]
+        rec >> 1
+        rec << 1
+    except Exception:
+        pass
+    return rec
